@@ -135,6 +135,10 @@ CHECKS["C26"] = ("exploration", "reconnect monitor with a scripted subscription 
     "1-3 subscriptions x 1-3 items, 1-3 faults (channel loss, session loss, restart with id reuse; later faults mostly inside the reconnect), TransferSubscriptions supported / unsupported / invalid; once stably Connected every subscription of the application must receive a new message with all items, everything received must be acknowledged under keep-alive traffic, nothing acknowledged twice on one connection, nothing acknowledged that was not sent or not delivered.",
     "a client that does not get back to a stable Connected state is inconclusive here (C25); sequence numbers keep growing across restarts so that ledger keys stay unique", "3/C26")
 
+CHECKS["C25"] = ("exploration", "lifecycle monitor: fault-injecting TCP proxy between the real client and the real server (child process), state reports recorded through StateChangedFunc and checked online against the documented transition relation, goroutine-dump and connection-attempt oracle after Close",
+    "1-4 faults per history (FIN / RST, outages, server restarts, (re)connections cut after 1-1500 bytes incl. the first connect), Close in steady state, during an outage, right after a fault, after a failed connect; documented transitions only, Connected with a working Read within 20000 heartbeats of the last fault (auto-reconnect), after Close: Closed kept, no connection attempts, no client goroutines.",
+    "Connect is called once per client (as client.go documents); the state after a failed first Connect is recorded, not judged", "3/C25")
+
 NOT_YET = {}
 
 
